@@ -61,7 +61,7 @@ DEFAULT_SHARES = (4, 2, 4)
 
 CBMC_BASE = ["--sat-solver", "cadical", "--unwinding-assertions", "--drop-unused-functions",
              "--pointer-overflow-check", "--undefined-shift-check", "--signed-overflow-check",
-             "--verbosity", "8"]
+             "--object-bits", "12", "--verbosity", "8"]
 # --bounds-check and --pointer-check are on by default in CBMC 6.
 
 
@@ -139,6 +139,19 @@ def sources_for(q, run_dir, native=False):
     form = q.form
     if form:
         flags.append("-DFORM_" + form)
+    if form == "T":
+        n = int(q.defs["LS_MAX"])
+        lsdir = os.path.join(run_dir, "ls-%d" % n)
+        if not os.path.exists(os.path.join(lsdir, "ls_records.h")):
+            os.makedirs(lsdir, exist_ok=True)
+            with open(os.path.join(lsdir, "ls_records.h.tmp%d" % os.getpid()), "w") as f:
+                f.write("static ls_rec_t %s;\n" % ", ".join("ls_r%d" % i for i in range(n)))
+                f.write("static ls_rec_t *ls_get(unsigned k)\n{\n    switch (k) {\n")
+                for i in range(n):
+                    f.write("    case %d: return &ls_r%d;\n" % (i, i))
+                f.write("    default: return &ls_r0;\n    }\n}\n")
+            os.replace(os.path.join(lsdir, "ls_records.h.tmp%d" % os.getpid()), os.path.join(lsdir, "ls_records.h"))
+        flags += ["-I", lsdir]
     for k, v in q.defs.items():
         flags.append("-D%s=%s" % (k, v) if v is not None else "-D%s" % k)
     flags += q.cc_flags
